@@ -41,6 +41,7 @@ fn main() {
         "keys" => keys(),
         "names" => names(),
         "grow" => grow(),
+        "pertype" => pertype(),
         "stats" => stats(),
         _ => { eprintln!("unknown scenario"); 2 }
     };
@@ -813,6 +814,107 @@ fn grow() -> i32 {
             let fk: u64 = m.count_of_free_key_piece().unwrap().iter().map(|x| x.0 as u64 * x.1).sum();
             if 192 + fk > flen(&dir, "key") { return Err("free key slots exceed the file".into()); }
         }
+        Ok(())
+    }));
+    let _ = std::fs::remove_dir_all(&dir);
+    match res { Ok(Ok(())) => { println!("OK"); 0 } Ok(Err(e)) => { println!("MISMATCH: {e}"); 1 }
+        Err(e) => { let msg = e.downcast_ref::<String>().cloned().unwrap_or_default();
+            if msg.contains("key_offset != new_key_offset") || msg.contains("_prev_key_offset != new_prev_key_offset") { println!("OK (stopped at recorded finding K1)"); 0 } else { println!("MISMATCH: panicked: {msg}"); 1 } } }
+}
+
+/// the same model-checked mini history through the public front-end of EVERY key type (the FileDbMap wrapper, key conversions, all
+/// iterator flavours, the *_string conveniences, is_empty, close and reopen): each map type must behave like an ideal map
+fn pertype_one<KT>(tag: &str, session: usize, m: &mut abyssiniandb::filedb::FileDbMap<KT>, keys: &[KT], model: &mut std::collections::BTreeMap<Vec<u8>, Vec<u8>>) -> Result<(), String>
+where KT: abyssiniandb::DbMapKeyType, for<'a> KT: From<&'a KT> {
+    use std::collections::{BTreeMap, BTreeSet};
+    use abyssiniandb::DbMap;
+    let kb = |k: &KT| -> Vec<u8> { k.as_bytes().to_vec() };
+    if m.len().unwrap() != model.len() as u64 { return Err(format!("{tag}: len after reopen {} != {}", m.len().unwrap(), model.len())); }
+    if m.is_empty().unwrap() != model.is_empty() { return Err(format!("{tag}: is_empty after reopen")); }
+    for (i, k) in keys.iter().enumerate() {
+        let v = vec![(i as u8) ^ (session as u8 * 0x55); 1 + (i * 13) % 70];
+        if m.includes_key(k).unwrap() != model.contains_key(&kb(k)) { return Err(format!("{tag}: includes_key differs for key #{i}")); }
+        if i % 3 == 0 { let sv = String::from_utf8(vec![b'a' + (i % 26) as u8; 1 + i % 9]).unwrap(); m.put_string(k, &sv).unwrap(); model.insert(kb(k), sv.into_bytes()); }
+        else { m.put(k, &v).unwrap(); model.insert(kb(k), v); }
+        if m.len().unwrap() != model.len() as u64 { return Err(format!("{tag}: len {} after put #{i}, model {}", m.len().unwrap(), model.len())); }
+    }
+    for (i, k) in keys.iter().enumerate() {
+        if m.get(k).unwrap().as_ref() != model.get(&kb(k)) { return Err(format!("{tag}: get differs for key #{i}")); }
+        if m.get_string(k).unwrap() != model.get(&kb(k)).map(|v| String::from_utf8_lossy(v).to_string()) { return Err(format!("{tag}: get_string differs for key #{i}")); }
+    }
+    let it: BTreeMap<Vec<u8>, Vec<u8>> = m.iter().map(|(k, v)| (k.as_bytes().to_vec(), v)).collect();
+    if it != *model { return Err(format!("{tag}: iter() differs from the model")); }
+    if m.iter().count() != model.len() || m.iter().size_hint() != (model.len(), Some(model.len())) { return Err(format!("{tag}: iter() count / size_hint differ")); }
+    let itm: BTreeMap<Vec<u8>, Vec<u8>> = m.iter_mut().map(|(k, v)| (k.as_bytes().to_vec(), v)).collect();
+    if itm != *model { return Err(format!("{tag}: iter_mut() differs from the model")); }
+    let ks: BTreeSet<Vec<u8>> = m.keys().map(|k| k.as_bytes().to_vec()).collect();
+    if ks != model.keys().cloned().collect::<BTreeSet<_>>() || m.keys().count() != model.len() { return Err(format!("{tag}: keys() differs from the model")); }
+    let mut vs: Vec<Vec<u8>> = m.values().collect(); vs.sort();
+    let mut mv: Vec<Vec<u8>> = model.values().cloned().collect(); mv.sort();
+    if vs != mv { return Err(format!("{tag}: values() differs from the model")); }
+    let byref: BTreeMap<Vec<u8>, Vec<u8>> = (&*m).into_iter().map(|(k, v)| (k.as_bytes().to_vec(), v)).collect();
+    if byref != *model { return Err(format!("{tag}: (&map).into_iter() differs from the model")); }
+    let byrefm: BTreeMap<Vec<u8>, Vec<u8>> = (&mut *m).into_iter().map(|(k, v)| (k.as_bytes().to_vec(), v)).collect();
+    if byrefm != *model { return Err(format!("{tag}: (&mut map).into_iter() differs from the model")); }
+    for (i, k) in keys.iter().enumerate() {
+        if i % 4 == 1 {
+            let r = m.delete(k).unwrap(); let e = model.remove(&kb(k));
+            if r != e { return Err(format!("{tag}: delete differs for key #{i}")); }
+            if m.delete(k).unwrap().is_some() || m.includes_key(k).unwrap() { return Err(format!("{tag}: key #{i} still there after delete")); }
+        } else if i % 4 == 2 {
+            let r = m.delete_string(k).unwrap(); let e = model.remove(&kb(k)).map(|v| String::from_utf8_lossy(&v).to_string());
+            if r != e { return Err(format!("{tag}: delete_string differs for key #{i}")); }
+        }
+    }
+    if m.len().unwrap() != model.len() as u64 || m.is_empty().unwrap() != model.is_empty() { return Err(format!("{tag}: len / is_empty differ after deletes")); }
+    let owned: BTreeMap<Vec<u8>, Vec<u8>> = m.clone().into_iter().map(|(k, v)| (k.as_bytes().to_vec(), v)).collect();
+    if owned != *model { return Err(format!("{tag}: map.into_iter() differs from the model")); }
+    if session == 1 {
+        let left: Vec<KT> = keys.iter().filter(|k| model.contains_key(&kb(k))).cloned().collect();
+        for (j, k) in left.iter().enumerate() {
+            if m.is_empty().unwrap() { return Err(format!("{tag}: is_empty true with {} entries left", left.len() - j)); }
+            m.delete(k).unwrap(); model.remove(&kb(k));
+        }
+        if !m.is_empty().unwrap() || m.len().unwrap() != 0 || m.iter().next().is_some() { return Err(format!("{tag}: map not empty after deleting everything")); }
+    }
+    Ok(())
+}
+
+fn pertype() -> i32 {
+    use std::collections::BTreeMap;
+    use abyssiniandb::{DbBytes, DbI64, DbString, DbU64, DbVu64};
+    let dir = tmpdir("pertype");
+    let res = std::panic::catch_unwind(std::panic::AssertUnwindSafe(|| -> Result<(), String> {
+        let params = FileDbParams { buckets_size: HashBucketsParam::BucketsSize(8), ..Default::default() };
+        let ints: Vec<u64> = (0..24u64).map(|i| if i % 2 == 0 { i } else { (i << 52) + i }).collect();
+        let ks: Vec<DbString> = (0..24).map(|i| DbString::from(format!("{}{}", "key".repeat(1 + i % 3), i).as_str())).collect();
+        let kbs: Vec<DbBytes> = (0..24u8).map(|i| DbBytes::from(&[i, 0, 0xff - i, i % 3][..(1 + (i as usize) % 4)])).collect();
+        let ki: Vec<DbI64> = ints.iter().enumerate().map(|(j, x)| DbI64::from(if j % 3 == 0 { -(*x as i64) - 1 } else { *x as i64 })).collect();
+        let ku: Vec<DbU64> = ints.iter().map(|x| DbU64::from(*x)).collect();
+        let kv: Vec<DbVu64> = ints.iter().map(|x| DbVu64::from(*x)).collect();
+        let (mut m1, mut m2, mut m3, mut m4, mut m5): (BTreeMap<_, _>, BTreeMap<_, _>, BTreeMap<_, _>, BTreeMap<_, _>, BTreeMap<_, _>) = Default::default();
+        for session in 0..2 {
+            let db = abyssiniandb::open_file(&dir).unwrap();
+            { let mut m = db.db_map_string_with_params("ps", params.clone()).unwrap(); pertype_one("string map", session, &mut m, &ks, &mut m1)?; }
+            { let mut m = db.db_map_bytes_with_params("pb", params.clone()).unwrap(); pertype_one("bytes map", session, &mut m, &kbs, &mut m2)?; }
+            { let mut m = db.db_map_i64_with_params("pi", params.clone()).unwrap(); pertype_one("i64 map", session, &mut m, &ki, &mut m3)?; }
+            { let mut m = db.db_map_u64_with_params("pu", params.clone()).unwrap(); pertype_one("u64 map", session, &mut m, &ku, &mut m4)?; }
+            { let mut m = db.db_map_vu64_with_params("pv", params.clone()).unwrap(); pertype_one("vu64 map", session, &mut m, &kv, &mut m5)?; }
+        }
+        // call forms: key given as &str / &String / &[u8] / &Vec<u8> / &u64 / &i64 address the same entry
+        let db = abyssiniandb::open_file(&dir).unwrap();
+        let mut m = db.db_map_string_with_params("forms", params.clone()).unwrap();
+        m.put("k1", b"v1").unwrap();
+        if m.get(&String::from("k1")).unwrap() != Some(b"v1".to_vec()) || m.get(&b"k1"[..]).unwrap() != Some(b"v1".to_vec()) || m.get(&DbString::from("k1")).unwrap() != Some(b"v1".to_vec()) { return Err("string map: key forms &String / &[u8] / &DbString do not address the entry put as &str".into()); }
+        let mut mb = db.db_map_bytes_with_params("formsb", params.clone()).unwrap();
+        mb.put(&[1u8, 0], b"v").unwrap();
+        if mb.get(&[1u8, 0][..]).unwrap() != Some(b"v".to_vec()) || mb.get(&[1u8][..]).unwrap().is_some() || mb.get(&[1u8, 0, 0][..]).unwrap().is_some() { return Err("bytes map: key forms / trailing zero".into()); }
+        let mut mu = db.db_map_u64_with_params("formsu", params.clone()).unwrap();
+        mu.put(&7u64, b"seven").unwrap();
+        if mu.get(&DbU64::from(7u64)).unwrap() != Some(b"seven".to_vec()) || mu.get(&DbU64::from(&7u64)).unwrap() != Some(b"seven".to_vec()) { return Err("u64 map: by-value / by-reference key conversion".into()); }
+        let mut mi = db.db_map_i64_with_params("formsi", params.clone()).unwrap();
+        mi.put(&-7i64, b"minus").unwrap(); mi.put(&7i64, b"plus").unwrap();
+        if mi.get(&DbI64::from(-7i64)).unwrap() != Some(b"minus".to_vec()) || mi.get(&DbI64::from(&-7i64)).unwrap() != Some(b"minus".to_vec()) || mi.get(&7i64).unwrap() != Some(b"plus".to_vec()) { return Err("i64 map: negative key / by-reference conversion".into()); }
         Ok(())
     }));
     let _ = std::fs::remove_dir_all(&dir);
